@@ -190,7 +190,7 @@ theorem roundTrip_spec (P : Params) (hP : P.OK) (n0 : Nat) (S : Nat → Bool) (h
           rw [find?_afterFree_ne _ _ _ _ hne2, find?_afterFree_ne _ _ _ _ hne1, sb5.out b (by simp; exact hne1)]
         · intro b
           rw [ids_afterFree, ids_afterFree, List.mem_filter, List.mem_filter, sb5.ids, g4.ids b, sb3.ids, F.ids, hids1]
-          simp only [List.mem_cons, bne_iff_ne, ne_eq, decide_eq_true_eq]
+          simp only [List.mem_cons, bne_iff_ne, ne_eq]
           constructor
           · rintro ⟨⟨hb, hne1⟩, hne2⟩
             rcases hb with ⟨e, hnd⟩ | e
